@@ -279,6 +279,21 @@ def register_global(name, v, depth=0):
         register_global(name + '[..]', x, depth + 1)
 
 
+class FrameViolation(Unsupported):
+    """the code under analysis touched state its contract's frame excludes (reported as a refuted frame clause)"""
+
+
+class GuardedState:
+    """stands for a piece of state a function's frame excludes: any use raises FrameViolation"""
+
+    def __init__(self, what):
+        self.what = what
+
+    def _touch(self, *a, **k):
+        raise FrameViolation(self.what)
+    py_getattr = py_getitem = py_setitem = py_len = py_truth = py_iter = py_contains = py_delitem = _touch
+
+
 def note_global_write(obj):
     if not LOADING[0] and id(obj) in GLOBAL_OBJS:
         nm = GLOBAL_OBJS[id(obj)][0]
